@@ -835,7 +835,8 @@ def poo_hooks():
                 owner = i
         best = max(float(v) for v in a.V_reward)
         if owner is None or float(a.V_reward[owner]) != best:
-            case.fail("C07", "recommendation-not-best-learner", f"point comes from learner {owner}, scores {list(map(float, a.V_reward))}", step="end", algo=name)
+            for prop in ("C07", "C10"):
+                case.fail(prop, "recommendation-not-best-learner", f"point comes from learner {owner}, scores {list(map(float, a.V_reward))}", step="end", algo=name)
 
     return {"after_init": after_init, "after_pull": after_pull_poo, "after_recv": after_recv, "at_end": at_end}
 
@@ -1002,7 +1003,7 @@ def zooming_hooks():
         rad = math.sqrt(8 * S["phase"] / (2 + len(S["ledger"][id(arm)])))
         thr = p["nu"] * p["rho"] ** cell.get_depth()
         refined = len(part._calls) > S["calls"]
-        if abs(rad - thr) > 1e-9 * thr and refined != (rad <= thr):
+        if (rad == thr or abs(rad - thr) > 1e-9 * thr) and refined != (rad <= thr):
             case.fail("C11", "refinement-rule", f"radius {rad!r}, nu*rho^depth {thr!r}, refined={refined}", step=t, algo=name)
         if refined:
             c = part._calls[-1]
